@@ -402,7 +402,9 @@ func run(c *core.Ctx) {
 	}
 	defer e.descendants("after the source pass")
 	// --- source pass
-	c.Sample(map[string]interface{}{"source_case": srcOf(tcase{Op: "//", A: -1, B: 2}), "oracle": "math/big floor quotient -1"})
+	// one sample per worker, of a different kind each (the merged evidence keeps the distinct ones)
+	sm := []tcase{{Op: "//", A: -1, B: 2}, {Op: "**", A: 3, B: 35}, {Op: "%", A: -7, B: 3}, {Op: "*", A: 3037000500, B: 3037000500}, {Op: "-", A: -9223372036854775807, B: 1}, {Op: "<=>", A: 9007199254740993, B: 9007199254740992}, {Op: "/", A: 7, B: 0}, {Op: "+", A: 9223372036854775807, B: 1}}[c.Shard%8]
+	c.Sample(map[string]interface{}{"source_case": srcOf(sm), "oracle": "math/big (exact result where it fits in 64 bits; ZeroDivisionErr for a zero divisor; a result that does not fit is a don't-care)"})
 	const batch = 2000
 	for i := 0; i < len(srcCases); i += batch {
 		if c.Expired() {
